@@ -42,11 +42,11 @@ DepthBound == TLCGet("level") <= Depth
 (* ---------------------------------------------------------------- model values *)
 \* "a", "b c", ">d" (a header may itself start with '>')
 HeadersQuick == {<<97>>, <<98, 32, 99>>, <<62, 100>>}
-\* "", "ACG", "GATTA"; the thorough tier adds "A", "AC*-" and a 7-letter string
+\* "", "ACG", "GATTA"; the thorough tier uses "", "A", "AC*-" and a 7-letter string
 SeqStrsQuick == {<<>>, <<65, 67, 71>>, <<71, 65, 84, 84, 65>>}
-SeqStrsThorough == SeqStrsQuick \cup {<<65>>, <<65, 67, STAR, MINUS>>, <<77, 75, 86, 76, 65, 88, 66>>}
+SeqStrsThorough == {<<>>, <<65>>, <<65, 67, STAR, MINUS>>, <<77, 75, 86, 76, 65, 88, 66>>}
 CplsQuick == {2}
-CplsThorough == {1, 2, 3, 80}
+CplsThorough == {1, 3, 80}
 
 (* ---------------------------------------------------------------- properties *)
 \* the incremental index is what a full re-scan of the text gives
